@@ -214,14 +214,21 @@ def r5(fx):
 @rule('C06', 'R6', 7, 'N1: four sites share threshold >= 5 and score counter - 2 (row/column siblings); N2: 3 per 2x2 block')
 def r6(fx):
     fn = fx.fn('encoder', 'mask_scores')
-    sites = {'n1_row_counter': [], 'n1_col_counter': []}
+    # the run counters: locals incremented by one (`X += 1`) and reset to 1
+    counters = sorted({ast.unparse(s.target) for s in src.statements(fn.body) if isinstance(s, ast.AugAssign) and isinstance(s.target, ast.Name)
+                       and isinstance(s.op, ast.Add) and isinstance(s.value, ast.Constant) and s.value.value == 1
+                       and any(isinstance(a, ast.Assign) and ast.unparse(a.targets[0]) == ast.unparse(s.target) and isinstance(a.value, ast.Constant)
+                               and a.value.value == 1 for a in src.statements(fn.body))})
+    need(len(counters) == 2, f'mask_scores: two run counters expected, found {counters}')
+    sites = {c: [] for c in counters}
     other = []
     for s in src.statements(fn.body):
         if isinstance(s, ast.If):
             b = pat.match(s.test, 'H_x >= H_c')
-            if b is not None and isinstance(b['x'], ast.Name) and b['x'].id in sites:
+            if b is not None and isinstance(b['x'], ast.Name) and b['x'].id in sites and isinstance(b['c'], ast.Constant):
                 sites[b['x'].id].append((s, b))
-            elif any(nm in ast.unparse(s.test) for nm in sites) and '==' not in ast.unparse(s.test):
+            elif any(isinstance(n, ast.Name) and n.id in sites for n in ast.walk(s.test)) and not any(isinstance(o, ast.Eq) for c_ in ast.walk(s.test)
+                                                                                                        if isinstance(c_, ast.Compare) for o in c_.ops):
                 other.append(s)
     yield ob('no N1 test of another shape', not other, fn, got=[ast.unparse(o.test) for o in other], want=[])
     for name, lst in sites.items():
@@ -229,12 +236,12 @@ def r6(fx):
         for s, b in lst:
             thr = ev.ev(b['c'], {})
             body = single(s.body, 'N1 scoring statement')
-            bb = pat.match(body, f'score_n1 += {name} - H_d', mode='stmt')
+            bb = pat.match(body, f'H_s += {name} - H_d', mode='stmt')
             yield ob(f'{name} site line-scan/line-end: threshold 5, score counter - 2',
                      thr == 5 and bb is not None and ev.ev(bb['d'], {}) == 2 and not s.orelse, s,
                      got=ast.unparse(s)[:90], want=f'if {name} >= 5: score_n1 += {name} - 2')
     # counters restart at 1, increment by 1
-    for name in sites:
+    for name in list(sites):
         incs = [s for s in src.statements(fn.body) if isinstance(s, ast.AugAssign) and ast.unparse(s.target) == name]
         sets = [s for s in src.statements(fn.body) if isinstance(s, ast.Assign) and ast.unparse(s.targets[0]) == name]
         ok = [ast.unparse(s) for s in incs] == [f'{name} += 1'] and sorted(ast.unparse(s.value) for s in sets) == ['0', '1']
@@ -245,8 +252,8 @@ def r6(fx):
     g = nf.guards_of(s2, fn)
     okn2 = ev.ev(s2.value, {}) == 3 and isinstance(s2.op, ast.Add)
     cond = g[-1][0] if g else None
-    okc = cond is not None and nf.norm(cond) == nf.norm(ast.parse(
-        'last_row and j and row_current_bit == row_prev_bit == last_row[j] == last_row[j - 1]', mode='eval').body)
+    okc = cond is not None and nf.same(cond, 
+        'last_row and j and row_current_bit == row_prev_bit == last_row[j] == last_row[j - 1]')
     yield ob('N2: +3 when the 2x2 block (j-1..j, previous row..row) is uniform', okn2 and okc, s2,
              got=f'{ast.unparse(s2)} if {ast.unparse(cond) if cond is not None else None}',
              want='score_n2 += 3 if last_row and j and row[j] == row[j-1] == last_row[j] == last_row[j-1]')
@@ -297,7 +304,7 @@ def r7(fx):
     offs = [a for a in src.statements(w.body) if isinstance(a, ast.Assign) and ast.unparse(a.targets[0]) == 'offset']
     ok_off = len(offs) == 1 and nf.affine(offs[0].value) == {'idx': 1, '': 7} and w.body.index(offs[0]) < w.body.index(nf.enclosing_stmt(cond))
     yield ob('40 points when at the symbol edge or 4 light modules precede or follow', ev.ev(c.value, {}) == 40
-             and nf.norm(cond) == nf.norm(ast.parse(want, mode='eval').body) and ok_off, c,
+             and nf.same(cond, want) and ok_off, c,
              got=f'count += {ast.unparse(c.value)} if {ast.unparse(cond)}; offset = {ast.unparse(offs[0].value) if offs else None}', want='count += 40 if ' + want + '; offset = idx + 7')
     # used for rows and columns
     uses = [x for x in src.calls_in(fn, 'n3_pattern_occurrences', into_nested=False)]
@@ -388,7 +395,8 @@ def r9(fx):
     a = single([s for s in enc.body if isinstance(s, ast.Assign) and 'normalize_mask' in ast.unparse(s.value)], 'normalize_mask in encode')
     b = pat.need(a.value, 'normalize_mask(mask, H_m)', 'normalize_mask call')
     im = [s for s in enc.body if isinstance(s, ast.Assign) and ast.unparse(s.targets[0]) == 'is_micro']
-    okm = isinstance(b['m'], ast.Name) and b['m'].id == 'is_micro' and len(im) == 1 and nf.norm(im[0].value) == 'version < 1' \
+    im = [s for s in enc.body if isinstance(s, ast.Assign) and isinstance(b['m'], ast.Name) and ast.unparse(s.targets[0]) == b['m'].id]
+    okm = isinstance(b['m'], ast.Name) and len(im) == 1 and nf.same(im[0].value, 'version < 1') \
         and enc.body.index(im[0]) < enc.body.index(a) and \
         all(enc.body.index(s) < enc.body.index(im[0]) for s in enc.body if isinstance(s, (ast.Assign, ast.If)) and any(
             isinstance(t, ast.Name) and t.id == 'version' and isinstance(t.ctx, ast.Store) for t in ast.walk(s)))
